@@ -68,7 +68,9 @@ func c11Cells(yield func(c11Cell)) {
 		subj       model.Val
 	}
 	var tests []tc
-	str := func(ts model.TestSpec, subj string) { tests = append(tests, tc{model.KString, "", ts, model.Str(subj)}) }
+	str := func(ts model.TestSpec, subj string) {
+		tests = append(tests, tc{model.KString, "", ts, model.Str(subj)})
+	}
 	str(model.TestSpec{Name: "min", N: 5}, "ab")
 	str(model.TestSpec{Name: "max", N: 2}, "abc")
 	str(model.TestSpec{Name: "len", N: 3}, "ab")
@@ -484,7 +486,9 @@ func propC11Seq(c c11Seq) hh.Verdict {
 		{"execution formatter X1", func() {}, []z.ExecOption{marker("X1")}, "X1"},
 		{"execution formatter X2", func() {}, []z.ExecOption{marker("X2")}, "X2"},
 		{"global formatter G", func() { conf.IssueFormatter = func(e *z.ZogIssue, ctx z.Ctx) { e.SetMessage("G") } }, nil, "G"},
-		{"i18n es", func() { i18n.SetLanguagesErrsMap(map[string]i18n.LangMap{"en": markerMap("en"), "es": markerMap("es")}, "en") }, []z.ExecOption{z.WithCtxValue(i18n.LangKey, "es")}, "L:es"},
+		{"i18n es", func() {
+			i18n.SetLanguagesErrsMap(map[string]i18n.LangMap{"en": markerMap("en"), "es": markerMap("es")}, "en")
+		}, []z.ExecOption{z.WithCtxValue(i18n.LangKey, "es")}, "L:es"},
 		{"i18n default", func() {}, nil, "L:en"},
 		{"execution formatter X3 over i18n", func() {}, []z.ExecOption{marker("X3")}, "X3"},
 	}
